@@ -358,12 +358,12 @@ def rule_hd_table(cx, rep, port):
     p = cx.port(port)
     mod = cx.engine_mod(port)
     fd = p.func(mod, 'select_output_header')
+    if _hd_model(cx, rep, port, p, mod, fd):
+        return
     loops = [n for n in fd.body if isinstance(n, ast.For)]
     if not loops:
         raise Undecided('select_output_header: naming loop not found', fd)
     lp = loops[-1]
-    if _hd_model(cx, rep, port, p, mod, fd):
-        return
     _hd_decision_table(rep, p, mod, fd, lp)
     # alias presence: a name that means "some column info has an alias" (flag loop, any(), some())
     from ..idioms import exists_predicates
